@@ -384,7 +384,9 @@ def annotate_items(tier):
             for first, second in itertools.product(REDUCED, repeat=2):
                 items.append((system_spec, [(first, targets[0]), (second, targets[1])], which))
             # two requests for the SAME target that differ in one part only (each is reported on its own when it matches nothing)
-            for first, second in (('A-45', 'B-45'), ('B-45', 'A-45'), ('#1', '#0'), ('A-GLY2', 'B-GLY2'), ('A-45', 'A-46'), ('GLY45', 'ALA45')):
+            for first, second in (('A-45', 'B-45'), ('B-45', 'A-45'), ('#1', '#0'), ('A-GLY2', 'B-GLY2'), ('A-45', 'A-46'), ('GLY45', 'ALA45'),
+                                  # a residue number 0 that matches nothing next to the same request without a number
+                                  ('ALA0', 'ALA'), ('ALA', 'ALA0'), ('A-ALA0', 'A-ALA'), ('PO4#0', 'PO4'), ('ALA#0', 'ALA')):
                 items.append((system_spec, [(first, targets[0]), (second, targets[0])], which))
             # unknown targets, only on specifications that match something in 'path'
             if 'path' in system_spec:
